@@ -46,6 +46,7 @@ let language_verdict (m : model) (out_nts : (coq_Z list * expr) list) : string =
   let out_vals = SL.map Stdlib.snd out_nts in
   match ExtLang.to_cfg tz setterms out_vals with
   | None -> "bad:produced-rule-is-not-flat"
+  | Some g when not (CfgNonneg.nonneg_rules g) -> "bad:negative-symbol-in-produced-rule"
   | Some g -> compare_languages m g (SL.mapi (fun i nt -> (i, index_of_name nt.nt_name out_nts)) m.m_nonterms)
 
 (* classification of one known deviation: a set(...) with no terminals denotes the empty language, the
